@@ -1,4 +1,5 @@
 //! Runs the real implementation on case files; prints canonical observations (one JSON per line).
+mod config;
 mod own;
 mod slices;
 mod write;
@@ -14,6 +15,7 @@ fn main() {
         "write" => write::run(&input),
         "slices" => slices::run(&input),
         "own" => own::run(&input),
+        "config" => config::run(&input),
         other => {
             eprintln!("unknown area {other}");
             std::process::exit(2);
